@@ -31,7 +31,7 @@ ASSUMPTIONS = [
 CFG = gen.Cfg(max_cols=6, max_rows=30, nrow_range=(1, 50), allow_group_by=True, half_points=True,
               as_colheader_false=True, long_text=0.15, noncontig=0.3, group_by_p=4,
               header_modes=("default", "explicit", "explicit_w", "multi", "none", "explicit_all"), multi_grouping=True,
-              numeric_page_by=0.3, page_by_return=0.2, subline_return=0.2, paper_range=(4.5, 60.0), group_blanks=True)
+              numeric_page_by=0.3, page_by_return=0.2, subline_return=0.2, paper_range=(4.5, 60.0), group_blanks=True, null_columns=0.06, last_row_option=True)
 CFG_SMALL = replace(CFG, max_rows=12, nrow_range=(1, 8))
 
 
